@@ -10,6 +10,7 @@ from mc.props import hist_common as HC
 from mc.runner import Result
 
 PROPERTY = "C11"
+PRELUDE = False     # see mc/prelude.py: this check manages the library state itself
 MENU = HC.CONFIG_OPS + HC.TRANSLATE_OPS
 RULE = ("state = module-level state of the selfies package + caller-held objects after a history of API calls "
         "(deduplicated by structural fingerprint incl. lru_cache contents); transition = one of the %d menu operations; "
@@ -30,7 +31,9 @@ def worker_init():
 
 def plan(tier, seed):
     depth = 4 if tier == "thorough" else 3
-    return {"scopes": [{"name": "level-%d" % d, "depth": d} for d in range(0, depth + 1)],
+    return {"scopes": [{"name": "level-%d" % d, "depth": d} for d in range(0, depth + 1)] + [
+                {"name": "long-histories", "histories": len(_long_histories()),
+                 "desc": "every prefix (length 4..64) of three cyclic sequences [set table, translate, set next table, translate, ...]"}],
             "tasks": [], "bounds": {"depth": depth, "menu": [op.name for op in MENU],
                                     "probes_decoder": HC.PROBES_D, "probes_encoder": HC.PROBES_E}, "depth": depth}
 
@@ -38,8 +41,33 @@ def plan(tier, seed):
 run = HC.make_run(MENU, use_probes=True, prop="C11", check_config=False)
 
 
+def _long_histories():
+    """the history-length dimension as a family: cycles of table switches with cache-filling translation calls in between,
+    every prefix of each cycle sequence is a history (probes after every step); objects freed and re-allocated along the way
+    (a table dict re-using the address of an earlier one) only occur in long histories"""
+    names = [op.name for op in MENU]
+
+    def idx(prefix):
+        return [i for i, n in enumerate(names) if n.startswith(prefix)][0]
+    dec = [idx("decoder('[Si][=C]"), idx("decoder('[CH1][#C]"), idx("encoder('O=S(=O)(O)O'")]
+    cycles = [[idx('set({"?": 3, "C": 1, "N": 5'), idx("set(T1-with-one-value-changed)"), idx('set({"?": 0'), idx('set("default")')],
+              [idx('set("default")'), idx('set("octet_rule")'), idx('set("hypervalent")')],
+              [idx("set(T1-with-keys-dropped)"), idx("set(T1-as-defaultdict)"), idx("set(T2-as-OrderedDict"), idx("set(missing-?)")]]
+    out = []
+    for cyc in cycles:
+        seq = []
+        for rep in range(8):
+            for k, t in enumerate(cyc):
+                seq += [t, dec[(rep + k) % len(dec)]]
+        for n in range(4, len(seq) + 1):
+            out.append(tuple(seq[:n]))
+    return out
+
+
 def explore(submit, plan, total, tier, seed):
     HC.explore(MENU, submit, total, plan["depth"])
+    hists = _long_histories()
+    submit([("long-histories", (hists[k::32],)) for k in range(32)])
 
 
 def finish(total, tier, seed):
